@@ -387,9 +387,9 @@ def rule_distributed(ctx: Ctx) -> None:
 
 
 def run(ctx: Ctx) -> None:
-    rule_policies(ctx)
-    rule_entities(ctx)
-    rule_distributed(ctx)
+    ctx.guarded(rule_policies)
+    ctx.guarded(rule_entities)
+    ctx.guarded(rule_distributed)
 
 
 MUTANTS = [
